@@ -6,7 +6,7 @@ HOT=/verif/seeded/hot_cells.txt
 for n in "$@"; do
   d=/verif/seeded/$n
   p=$(python3 -c "import json;print(json.load(open('$d/meta.json'))['breaks_property'])")
-  SKIP_TESTS=1 /verif/selftest $d/patch.diff $p > /tmp/matrix.$$.out 2>/dev/null
+  SKIP_TESTS=1 /verif/selftest $d/patch.diff $p $MATRIX_ARGS > /tmp/matrix.$$.out 2>/dev/null
   r=$(grep -c "^VIOLATION" /tmp/matrix.$$.out)
   if [ "$r" -gt 0 ]; then res="VIOLATION reported"; else res="MISSED"; fi
   grep -v "^| $n |" $OUT > $OUT.tmp2; echo "| $n | $p | $res |" >> $OUT.tmp2; (head -2 $OUT.tmp2; tail -n +3 $OUT.tmp2 | sort) > $OUT; rm -f $OUT.tmp2
